@@ -378,9 +378,11 @@ func main() {
 		ok := false
 		switch kind {
 		case 'n':
-			ok = n == chunkSize || n == chunkSize+1
-		case 'p', 'd':
+			ok = n == chunkSize || run.Thorough() && n == chunkSize+1
+		case 'p':
 			ok = n == chunkSize+8 || n == chunkSize+9
+		case 'd':
+			ok = run.Thorough() && (n == chunkSize+8 || n == chunkSize+9)
 		}
 		k := fmt.Sprintf("%c%d", kind, n)
 		if ok && !seenBig[k] {
@@ -451,7 +453,7 @@ func main() {
 			for k := 0; k < 8; k++ {
 				positions = append(positions, k)
 			}
-			for k := 0; k < 56; k++ {
+			for k := 0; k < run.N(20, 56); k++ {
 				positions = append(positions, 8+r.Intn(len(d)-8))
 			}
 			positions = append(positions, len(d)-1)
